@@ -45,6 +45,24 @@ theorem counts_entry (rows : List (List Int)) (lag : Nat) (n : Nat) (sliding : B
   · cases h
     exact ⟨rfl, fun _ _ => rfl⟩
 
+/-- with the state count inferred: the size is (largest observed state) + 1 and the entries are the same
+pair counts; an input with no assigned frame at all is rejected -/
+theorem counts_entry_inferred (rows : List (List Int)) (lag : Nat) (sliding : Bool) (hlag : 1 ≤ lag)
+    (c : CountMat) (h : assignsToCounts rows (lag : Int) none sliding = .ok c) :
+    ∃ m, maxState rows = some m ∧ c.n = (m + 1).toNat ∧
+      ∀ i j : Nat, c.entry i j = countPair (specPairs rows lag sliding) i j := by
+  have hl : ¬ ((lag : Int) < 1) := by omega
+  simp only [assignsToCounts, hl, if_false, Int.toNat_natCast, allPairs_eq rows lag sliding hlag,
+    bind, Except.bind, pure, Except.pure] at h
+  cases hm : maxState rows with
+  | none => simp [hm, throw, throwThe, MonadExceptOf.throw] at h
+  | some m =>
+    simp only [hm] at h
+    split at h
+    · cases h
+    · cases h
+      exact ⟨m, rfl, rfl, fun _ _ => rfl⟩
+
 /-- the returned table is square: n rows of n entries -/
 theorem counts_square (c : CountMat) :
     c.toLists.length = c.n ∧ ∀ r ∈ c.toLists, r.length = c.n := by
